@@ -179,8 +179,20 @@ impl Stream for C11 {
             // explicit actions lists
             if rng.chance(1, 3) {
                 let snapshot = root.clone();
-                let acts: Vec<(String, bool)> = snapshot
-                    .pre_order()
+                // only objects that survive: an object below an unknown type vanishes with that subtree, and a reference
+                // to it is a different error (undefined reference) which this stream does not plant
+                fn surviving<'a>(o: &'a Obj, v: &mut Vec<&'a Obj>) {
+                    if o.class.starts_with("Nope") {
+                        return;
+                    }
+                    v.push(o);
+                    for c in &o.children {
+                        surviving(c, v);
+                    }
+                }
+                let mut alive = vec![];
+                surviving(&snapshot, &mut alive);
+                let acts: Vec<(String, bool)> = alive
                     .iter()
                     .filter(|o| o.class == "QAction" || o.class == "QMenu")
                     .map(|o| (o.id.clone().unwrap(), family_of(&o.class) == Family::Menu))
@@ -266,7 +278,8 @@ fn mutate_illegal(rng: &mut Rng, root: &mut Obj) {
 
 fn add_actions(rng: &mut Rng, o: &mut Obj, acts: &[(String, bool)]) {
     let fam = family_of(&o.class);
-    if matches!(fam, Family::Widget | Family::Menu) && !o.class.starts_with("Nope") && o.class != "QTabWidget" && rng.chance(1, 4) {
+    // QButtonGroup is a plain QObject (no `actions` property): the planted non-widget gets no list
+    if matches!(fam, Family::Widget | Family::Menu) && !o.class.starts_with("Nope") && o.class != "QTabWidget" && o.class != "QButtonGroup" && rng.chance(1, 4) {
         let k = 1 + rng.below(acts.len().min(4));
         let refs: Vec<String> = (0..k)
             .map(|_| {
